@@ -656,6 +656,8 @@ func c10(c *core.Ctx, r *core.Report) {
 			c10Registration(c, r, s, cons, ps)
 		case strings.HasSuffix(s.key, "←GetSingletonNames") && onlyLenUses(s.val):
 			r.Hold("C10.R1", cons, pos, "SETLIKE: only the length is used")
+		case s.kind == "use" && s.val != nil && isErrorSlice(s.val.Type()) && diagnosticOnly(c, s.val, 0):
+			r.Hold("C10.R1", cons, pos, "DIAGNOSTIC: the errors come back in no particular order, and are only tested for presence and put into an error text")
 		default:
 			r.Fail("C10.R1", cons, pos, "unclassified source of an unordered sequence: it is neither sorted before use nor in the table of order-insensitive consumers")
 		}
@@ -1148,4 +1150,9 @@ func sameCellLoad(a, b ssa.Value, after ssa.Instruction) bool {
 		}
 	}
 	return true
+}
+
+func isErrorSlice(t types.Type) bool {
+	sl, ok := t.Underlying().(*types.Slice)
+	return ok && isErrorType(sl.Elem())
 }
